@@ -652,3 +652,18 @@ Theorem C05_strategy_subset_results_any_cap :
     (forall T, In T (glued_of 2%N host p) -> exists T', In T' (glued_of 0%N host p) /\ obs_eq T T').
 Proof. exact thm_strategy_subset_results_any_cap. Qed.
 Print Assumptions C05_strategy_subset_results_any_cap.
+
+(** 23. CAPSTONE of 20: the same statement with every premise about the two writings in the form the run function [run_c05t]
+    evaluates on each compared writing of each case ([okb0_of] = [side_okb0] and [wfb] of the two matcher graphs, on the base
+    writing and on the other writing — the premises are invariant under renumbering, [side_ok0_relabel], [wf_relabel]). *)
+Theorem C05_result_set_invariant_exhaustive_any_options_checked :
+  forall (TH : Thr) (pref : bool) (sg pi : N -> N), inj sg -> inj pi ->
+  forall (host0 host : hostg) (p0 p : prepared),
+    side_okb0 host0 p0 = true -> side_okb0 host p = true ->
+    C06_Model.wfb (host_c06 host0) = true -> C06_Model.wfb (host_c06 host) = true ->
+    C06_Model.wfb (pat_c06 (p_pat p0)) = true -> C06_Model.wfb (pat_c06 (p_pat p)) = true ->
+    same_graph (relabel pi host0) host -> same_graph (relabel sg (p_rc p0)) (p_rc p) -> same_graph (relabel sg (p_pat p0)) (p_pat p) ->
+    (forall T, In T (glued_of_pf pref 0%N host0 p0) -> exists T', In T' (glued_of_pf pref 0%N host p) /\ obs_eq (relabel pi T) T') /\
+    (forall T', In T' (glued_of_pf pref 0%N host p) -> exists T, In T (glued_of_pf pref 0%N host0 p0) /\ obs_eq (relabel pi T) T').
+Proof. exact thm_result_set_invariant_exhaustive_any_options_checked. Qed.
+Print Assumptions C05_result_set_invariant_exhaustive_any_options_checked.
